@@ -116,7 +116,12 @@ def _assemble(x_chunks, shape, blocks, ref):
         return f"to_delayed gave {len(blocks)} blocks for {len(idxs)} advertised"
     for idx, b in zip(idxs, blocks):
         sl = tuple(slice(int(bounds[d][i]), int(bounds[d][i + 1])) for d, i in enumerate(idx))
-        r = same_value(np.asanyarray(b), np.asanyarray(ref)[sl] if np.ndim(ref) else np.asanyarray(ref))
+        want = np.asanyarray(ref)[sl] if np.ndim(ref) else np.asanyarray(ref)
+        got = np.asanyarray(b)
+        if isinstance(want, np.ma.MaskedArray) != isinstance(got, np.ma.MaskedArray):
+            # a block may be a plain ndarray while the concatenated result is masked (and vice versa)
+            want, got = np.ma.asarray(want), np.ma.asarray(got)
+        r = same_value(got, want)
         if r:
             return f"block {idx}: {r}"
     return None
